@@ -2,7 +2,7 @@
 # usage: patch_run.sh <patch.diff> <tier> <worktree> <Cnn>...
 # Applies a patch in a scratch worktree of /repo (never /repo itself), builds the harness against it
 # once, and runs the listed checks; one summary line per check. Evidence goes to a scratch root.
-P="$1"; TIER="$2"; W="$3"; shift 3
+P="$(realpath "$1")"; TIER="$2"; W="$3"; shift 3
 export GOFLAGS=-mod=mod GOPROXY=off GOSUMDB=off GOTOOLCHAIN=local
 if [ ! -d "$W" ]; then git -C /repo worktree add -q --detach "$W" HEAD || exit 2; fi
 cd "$W" && git checkout -q --detach "$(git -C /repo rev-parse HEAD)" 2>/dev/null; git checkout -q -- . ; git clean -fdq >/dev/null 2>&1
